@@ -72,7 +72,7 @@ pub fn run_env_spec(ctx: &Ctx, spec: &EnvSpec) -> EnvOutcome {
                     }
                     let mut r = Sm::derive(ctx.seed, 0xE0000 + i as u64);
                     // one session in 41 runs in a wide market (12 or 66 assets: more assets than levels, asset indexes beyond 10 and 64)
-                    let env_idx = if i % 41 == 40 && spec.env_types.iter().any(|t| ENV_IS_MULTI[*t]) { WIDE_ENV_TYPES[(i / 41) % WIDE_ENV_TYPES.len()] } else { spec.env_types[i % spec.env_types.len()] };
+                    let env_idx = if i % 53 == 52 { if spec.env_types.iter().all(|t| ENV_IS_MULTI[*t]) { ZERO_LEVEL_ENV_TYPES[1] } else { ZERO_LEVEL_ENV_TYPES[(i / 53) % 2] } } else if i % 41 == 40 && spec.env_types.iter().any(|t| ENV_IS_MULTI[*t]) { WIDE_ENV_TYPES[(i / 41) % WIDE_ENV_TYPES.len()] } else { spec.env_types[i % spec.env_types.len()] };
                     let cfg = SessionCfg { env_idx, flags: spec.flags, sub_seed: r.next(), max_steps: spec.max_steps, toggle_rate: spec.toggle_rate, offgrid_rate: spec.offgrid_rate, stop_after: None };
                     let mut out = SessionOut { distinct_keys: Vec::new(), sample: None };
                     let res = run_session_guarded(&cfg, &mut cs, &mut out);
